@@ -23,13 +23,13 @@ import (
 )
 
 type ReconfStep struct {
-	Kind      string   `json:"kind"`             // put-list | put-raw | put-nsqds | put-loglevel | get
-	Method    string   `json:"method"`           // GET | PUT
-	Opt       string   `json:"opt"`              // option named in the path
-	BodyClass string   `json:"body_class"`       // valid | invalid | empty
-	Value     []string `json:"value,omitempty"`  // put-list / put-nsqds: stub names, sent as a JSON array of their addresses
-	Body      string   `json:"body,omitempty"`   // any other body, as sent
-	Transport string   `json:"transport"`        // direct | wire
+	Kind      string   `json:"kind"`            // put-list | put-raw | put-nsqds | put-loglevel | get
+	Method    string   `json:"method"`          // GET | PUT
+	Opt       string   `json:"opt"`             // option named in the path
+	BodyClass string   `json:"body_class"`      // valid | invalid | empty
+	Value     []string `json:"value,omitempty"` // put-list / put-nsqds: stub names, sent as a JSON array of their addresses
+	Body      string   `json:"body,omitempty"`  // any other body, as sent
+	Transport string   `json:"transport"`       // direct | wire
 	LocalIP   string   `json:"local_ip,omitempty"`
 	Remote    string   `json:"remote,omitempty"`
 	RemoteIP  string   `json:"remote_ip,omitempty"`
